@@ -90,7 +90,7 @@ pub const JUNK: [&str; 28] = [
 ];
 
 /// Tails appended to a card spelling; by C12 the token is still that card.
-pub const TAILS: [&str; 6] = ["", "x", "♠", "0", "ss", "!"];
+pub const TAILS: [&str; 10] = ["", "x", "♠", "0", "ss", "!", "-highlighted", "_0123456789abcdef0123456789abcdef", "♠♥♦♣♤♡♢♧♠♥♦♣♤♡♢♧♠♥♦♣", "………………………………………………………………………………………………………………………………………………………………………………………………………………………………………………………………………………………………………………………………………………"];
 
 /// Every character with the Unicode White_Space property (what Rust's `char::is_whitespace` /
 /// `split_whitespace` mean by whitespace) occurs as a separator. Entries 0..7 consist of ASCII
@@ -141,7 +141,7 @@ mod tests {
         for i in 0..52 {
             for sp in 0..spellings(i) {
                 assert!(is_card(&spelling(i, sp)));
-                for mode in 0..8 {
+                for mode in 0..12 {
                     let a = alias_spelling(i, sp, mode);
                     assert!(!is_card(&a), "alias {:?} is a card", a);
                     assert!(!a.chars().any(char::is_whitespace));
@@ -191,10 +191,36 @@ pub fn fold_aliases() -> &'static Vec<(char, char)> {
 pub fn alias_spelling(deck_index: usize, which: usize, mode: usize) -> String {
     let sp = spelling(deck_index, which);
     let mut cs: Vec<char> = sp.chars().collect();
-    if mode % 8 >= 6 {
+    if mode % 12 >= 8 {
+        // modes 8..11: a numeric or bit-mask near-miss of the first / second character (code point
+        // +-1, +-2, +-3, +-4, +-8, +-16, +-32, or one of its low seven bits flipped): decoding by
+        // range or by masking instead of by listing the symbols confuses these
+        let pos = (mode % 12 - 8) % 2;
+        let c = cs[pos] as u32;
+        let mut cands: Vec<char> = Vec::new();
+        for d in [1i64, -1, 2, -2, 3, -3, 4, -4, 8, -8, 16, -16, 32, -32] {
+            if let Some(x) = u32::try_from(c as i64 + d).ok().and_then(char::from_u32) {
+                cands.push(x);
+            }
+        }
+        for b in 0..7 {
+            if let Some(x) = char::from_u32(c ^ (1 << b)) {
+                cands.push(x);
+            }
+        }
+        let ranks: Vec<char> = RANK_UPPER.iter().chain(RANK_LOWER.iter()).copied().chain(['0']).collect();
+        let suits: Vec<char> = SUIT_SPELL.iter().flatten().copied().collect();
+        cands.retain(|x| !x.is_whitespace() && if pos == 0 { !ranks.contains(x) } else { !suits.contains(x) });
+        if !cands.is_empty() {
+            let pick = if mode % 12 >= 10 { (deck_index * 7 + which * 3 + 1) % cands.len() } else { (deck_index + which) % cands.len() };
+            cs[pos] = cands[pick];
+            return cs.into_iter().collect();
+        }
+    }
+    if mode % 12 >= 6 && mode % 12 < 8 {
         // modes 6, 7: the first / second character replaced by a case-folding look-alike of it
         // (falls through to the narrowing aliases when the character has none)
-        let pos = mode % 8 - 6;
+        let pos = mode % 12 - 6;
         let cands: Vec<char> = fold_aliases().iter().filter(|(_, f)| f.eq_ignore_ascii_case(&cs[pos]) || *f == cs[pos]).map(|(c, _)| *c).collect();
         if !cands.is_empty() {
             cs[pos] = cands[(deck_index + which) % cands.len()];
